@@ -343,7 +343,7 @@ func TestVerif_C09_FilterRules(t *testing.T) {
 	defer r.Finish()
 	r.Rule("specs: 1-3 policies (limit 1-4, period 1h, timeout 0s/1ms/10ms/100ms) x 1-4 URL rules (exact/prefix/regex over a 10-pattern alphabet, method lists, explicit or default policyRef, overlapping matchers on purpose); 40 requests (3 methods x 9 paths, with repeats) through the real Handle in lock-step with one-counter-per-rule reference; distinct = (outcome, winning rule first/later, whether later rules also match, matcher kind)")
 	r.Assume("each URL rule uses exactly one of exact/prefix/regex; no two rules of one spec have identical matchers; all requests of a case fall into the first one-hour period")
-	n := r.N(1500, 45000)
+	n := r.N(1500, 30000)
 	for i := 0; i < n; i++ {
 		if !r.Mine(i) {
 			continue
@@ -455,7 +455,7 @@ func TestVerif_C09_FilterReload(t *testing.T) {
 	defer r.Finish()
 	r.Rule("generation 0 from the Rules generator, 25 requests (budgets run out), then 3 reloads through Inherit, each {unchanged, policy limit changed, policy timeout changed, rules reordered, rule added, rule removed, default policy switched}, 25 requests after each; reference carries a rule's counter over exactly when the new spec contains the same rule (same matcher, same policyRef as written, same content of the referenced policy) and starts at 0 otherwise; a systematic prefix runs the design's scenario literally (exhaust, Inherit unchanged => still 429; Inherit with changed limit => admitted); distinct = (reload kind, outcome, carried/fresh state of the winning rule)")
 	r.Assume("a rule that refers to the default policy counts as changed when defaultPolicyRef names another policy, as unchanged when the default policy's content is the same; previous generations are not used after Inherit")
-	n := r.N(1200, 36000)
+	n := r.N(1200, 20000)
 	for i := 0; i < n; i++ {
 		if !r.Mine(i) {
 			continue
